@@ -221,7 +221,7 @@ func c05d05With(ctx *Ctx, recv c05Recv, calls []c05Call) {
 	// split the calls into consecutive groups (possibly empty ones)
 	var groups [][]c05Call
 	rest := calls
-	if len(calls) > 0 || r.Intn(3) > 0 {
+	if (len(calls) > 0 || r.Intn(3) > 0) && r.Intn(10) != 0 { // else: RefineWith() without any refiner
 		for {
 			k := 0
 			if len(rest) > 0 {
